@@ -33,7 +33,7 @@ def run(ctx, chk):
     chk.not_decided += ["numeric value decoded by the half-float loader (C15)", "behaviour of the client callbacks"]
 
     by_byte, pre, outs = tables.dispatch(prog, eff)
-    chk.floor("C08.coverage", "paths of cbor_stream_decode", len(outs), 100)
+    chk.floor("C08.coverage", "paths of cbor_stream_decode", len(outs), 70)
     names, enumv = DR.status_names(prog)
     ext_cache = {}
 
@@ -85,7 +85,7 @@ def run(ctx, chk):
                 chk.ob("C08.claim-before-read", "byte 0x%02X path %d %s" % (b, k, ev.callee or "load"), ok, ev.ins.loc(), fn=f.name,
                        key="%02X:cbr:%s:%s" % (b, ev.callee or "load", k), detail="" if ok else detail,
                        path=o["path"].block_lines() if not ok else None)
-    chk.floor("C08.action", "byte x path comparisons", nact, 1000)
+    chk.floor("C08.action", "byte x path comparisons", nact, 700)
 
     # stateless / allocation free
     S = eff.summ["cbor_stream_decode"]
